@@ -408,6 +408,48 @@ def main(argv: List[str]) -> int:
     if mut_bad is not None:
         run.violation("C20:mutation-history", "comparison does not follow the current field values after an in-place edit — " + mut_bad[0], {**mut_bad[1], "replay": "build the objects, compare once, assign the fields, compare again"}, True)
 
+    # ---- trivial subclasses (bounded, native; added after seed C20-13): an instance of `class Sub(Position): pass` is a position, a Range /
+    #      Location built from such components has those components.  The lemma programs quantify over instances of the three classes
+    #      themselves; this grid adds operands whose class is a plain subclass, in both operand orders.
+    sub_n = 0
+    sub_bad = None
+    try:
+        SP = type("VerifSubPosition", (P,), {})
+        SR = type("VerifSubRange", (R,), {})
+        SL = type("VerifSubLocation", (Lc,), {})
+        grid = pts[:4]
+        for a0 in grid:
+            for b0 in grid:
+                for ca, cb in ((SP, P), (P, SP), (SP, SP)):
+                    a, b = ca(line=a0[0], character=a0[1]), cb(line=b0[0], character=b0[1])
+                    for nm, f in ops.items():
+                        sub_n += 1
+                        try:
+                            got = f(a, b)
+                        except Exception as e:  # noqa
+                            got = f"raises {type(e).__name__}"
+                        want = f(a0, b0)
+                        if got is not want and sub_bad is None:
+                            sub_bad = (f"{ca.__name__}{a0} {nm} {cb.__name__}{b0} gives {got}, the pairs say {want}", {"left": [ca.__name__, a0], "right": [cb.__name__, b0], "operator": nm})
+                # Range / Location: equal exactly when the components are equal, whatever plain subclass carries them
+                mk = lambda pc, rc, q: rc(start=pc(line=q[0], character=q[1]), end=pc(line=9, character=9))  # noqa: E731
+                for (pa, ra), (pb, rb) in (((SP, R), (P, R)), ((P, SR), (P, R)), ((P, R), (SP, SR))):
+                    ra_, rb_ = mk(pa, ra, a0), mk(pb, rb, b0)
+                    la_, lb_ = Lc(uri="file:///a", range=ra_), SL(uri="file:///a", range=rb_)
+                    for x, y, what in ((ra_, rb_, "Range"), (rb_, ra_, "Range"), (la_, lb_, "Location"), (lb_, la_, "Location")):
+                        sub_n += 2
+                        try:
+                            got = ((x == y), (x != y))
+                        except Exception as e:  # noqa
+                            got = f"raises {type(e).__name__}"
+                        want = ((a0 == b0), (a0 != b0))
+                        if got != want and sub_bad is None:
+                            sub_bad = (f"{what} objects built from plain subclasses with start {a0} / {b0} (same end, same uri): (==, !=) gives {got}, the components say {want}", {"classes": [type(x).__name__, type(y).__name__, pa.__name__, pb.__name__], "starts": [a0, b0]})
+    except Exception as e:  # noqa
+        run.notes.append(f"subclass grid could not be built: {e!r}")
+    if sub_bad is not None:
+        run.violation("C20:subclass-operands", "comparison of instances of a plain subclass does not follow the components — " + sub_bad[0], {**sub_bad[1], "replay": "class Sub(Position): pass (resp. Range, Location); build the operands; compare"}, True)
+
     if n_lemmas == 0:
         run.crash("no lemma generated")
     run.assume(
@@ -416,7 +458,7 @@ def main(argv: List[str]) -> int:
         "str(int) is an uninterpreted injective-agnostic function shared by code and specification",
         "a foreign ('unrelated') object does not define reflected comparison methods that accept these classes",
         "functools.total_ordering bound the helpers found in the live class __dict__ (their bodies are verified, the decorator's choice is read off the live class)",
-        "subclass instances of Position/Range/Location are not considered",
+        "operands whose class is a subclass of Position/Range/Location are outside the lemmas; plain (non-overriding) subclasses are covered by a bounded native grid only",
     )
     cov = stats.coverage()
     cov.update(
@@ -429,6 +471,7 @@ def main(argv: List[str]) -> int:
             "methods_verified": info["methods"],
             "bounded_native_cases": bounded,
             "mutation_history_cases": mut_n,
+            "subclass_operand_cases": sub_n,
             "encoder_vs_cpython_inputs": diff_n,
             "samples": stats.samples[:8],
             "notes": run.notes,
